@@ -321,11 +321,13 @@ def gen_cases(ctx):
         for vals in itertools.product(pool if n <= 4 else pool[:3], repeat=n):
             for m in ms:
                 yield {"method": m, "rules": flags(rng, n, plain=rng.random() < 0.4), "values": list(vals)}, "exhaustive"
-    big = [0.0, 0.0, 0.125, 0.25, 0.25, 0.5, 0.5, 0.625, 0.75, 1.0, 0.3, math.nan]
+    # degrees just below / above the usual thresholds (closer than the library's own tolerance 1e-3): the comparison with the
+    # threshold is exact
+    big = [0.0, 0.0, 0.125, 0.25, 0.25, 0.5, 0.5, 0.625, 0.75, 1.0, 0.3, 0.4996, 0.5004, 0.2498, 0.9992, math.nan]
     for _ in range(ctx.scale(2500, 60000)):
         n = rng.choice([5, 6, 7, 8])
         vals = [rng.choice(big) for _ in range(n)]
-        t = rng.choice([0.0, rng.choice(vals), 0.3, 0.5 * rng.choice(vals), 1.5, math.nan, -1.0])
+        t = rng.choice([0.0, rng.choice(vals), 0.3, 0.5 * rng.choice(vals), 1.5, math.nan, -1.0, 0.5, 0.25, 1.0])
         m = rng.choice([["General"], ["Proportional"], ["Highest", rng.randrange(-1, n + 2)], ["Lowest", rng.randrange(-1, n + 2)],
                         ["First", rng.randrange(-1, n + 2), t], ["Last", rng.randrange(-1, n + 2), t],
                         ["Threshold", rng.choice(COMPARATORS), t], ["Threshold", rng.choice(COMPARATORS), t]])
